@@ -115,7 +115,10 @@ def parse_type(p):
         if not q.done() or ln[0] != "l": raise ReaderError("array length")
         return ("array", el, ln[1])
     if x[0] == "p" and x[1] == "&":
-        rest = p.t[p.i:]; p.i = len(p.t); return ("ref", rest)
+        p.eat(); lt = None; mut = False
+        if p.is_p("'"): p.eat(); lt = p.expect_i()
+        if p.is_i("mut"): p.eat(); mut = True
+        return ("ref", lt, mut, parse_type(p))
     segs = []; lead = False
     if p.is_p(":"): p.eat(); p.expect_p(":"); lead = True
     args = []
@@ -257,6 +260,7 @@ def walk_type(ty):
     if ty[0] == "tuple":
         for t in ty[1]: yield from walk_type(t)
     elif ty[0] in ("array", "paren"): yield from walk_type(ty[1])
+    elif ty[0] == "ref": yield from walk_type(ty[3])
     elif ty[0] == "path":
         for a in ty[3]:
             if a[0] != "lifetime": yield from walk_type(a)
